@@ -30,15 +30,17 @@ confirmed=no
 if [ $base -eq 0 ] && [ $b -eq 0 ] && [ $s -eq 0 ] && [ $d -ne 0 ]; then confirmed=yes; fi
 echo "confirmed: $confirmed"
 # run the checks
-mkdir -p "$scr/verif"; cp -r /verif/props.json /verif/known_findings.txt /verif/props "$scr/verif/"
+mkdir -p "$scr/verif"; cp -r /verif/props.json /verif/known_findings.txt /verif/props /verif/findings "$scr/verif/"
 props=$(python3 -c "import json;print(' '.join(sorted(json.load(open('/verif/props.json'))['props'])))")
 caught=""
 : > "$scr/checks.out"
+run_one() { pr="$1"; mkdir -p "$scr/v_$pr"; cp -r "$scr/verif/." "$scr/v_$pr/"; /verif/bin/hvc check --repo "$scr/repo" --verif "$scr/v_$pr" --property $pr > "$scr/out_$pr.txt" 2>&1; }
+export -f run_one; export scr
+echo $props | tr ' ' '\n' | xargs -P 5 -I{} bash -c 'run_one {}'
 for pr in $props; do
-  out=$(/verif/bin/hvc check --repo "$scr/repo" --verif "$scr/verif" --property $pr 2>&1)
-  if echo "$out" | grep -q "^VIOLATION"; then
+  if grep -q "^VIOLATION" "$scr/out_$pr.txt"; then
     caught="$caught $pr"
-    echo "$out" | grep -A1 "^VIOLATION" | grep "function=" | sed "s/^/  [$pr]/" | cut -c1-260 >> "$scr/checks.out"
+    grep -A1 "^VIOLATION" "$scr/out_$pr.txt" | grep "function=\|bounded case" | sed "s/^/  [$pr]/" | cut -c1-260 >> "$scr/checks.out"
   fi
 done
 echo "caught by:${caught:- NONE}"
